@@ -229,34 +229,54 @@ def keys_read(ctx, cname, seen=None):
     return out
 
 
-def deleted_keys(ctx, stmts, conditional=None):
-    """Keys removed from the inherited dictionary.  A deletion counts only when it is guarded by nothing but the presence
-    test of its own key (a deletion that depends on another key or flag does not always happen); others are collected in
-    `conditional`."""
+def deleted_keys(ctx, stmts, conditional=None, dname="values"):
+    """Keys removed from the inherited dictionary (`del D[K]`, `D.pop(K, ...)`).  A removal counts only when it is guarded by
+    nothing but the presence test of its own key (a removal that depends on another key or flag does not always happen);
+    others are collected in `conditional`."""
     out = set()
     top = list(stmts)
+
+    def kv(n):
+        try:
+            return ctx.m.const(n)
+        except NotConst:
+            return None
+
+    def own_guard(test, k):
+        return isinstance(test, ast.Compare) and len(test.ops) == 1 and isinstance(test.ops[0], ast.In) and isinstance(test.comparators[0], ast.Name) \
+            and test.comparators[0].id == dname and kv(test.left) == k
+
+    removals = []
     for s in stmts_in(stmts):
         if isinstance(s, ast.Delete):
             for t in s.targets:
-                if isinstance(t, ast.Subscript) and ast.unparse(t.value) == "values":
-                    try:
-                        k = ctx.m.const(t.slice)
-                    except NotConst:
-                        continue
-                    own = True
-                    p = getattr(s, "_parent", None)
-                    while p is not None and not any(p is x for x in top) and not isinstance(p, ast.FunctionDef):
-                        if isinstance(p, (ast.If, ast.For, ast.While, ast.Try)):
-                            if not (isinstance(p, ast.If) and ast.unparse(p.test) == "%s in values" % ast.unparse(t.slice)):
-                                own = False
-                        p = getattr(p, "_parent", None)
-                    if p is not None and isinstance(p, ast.If) and any(p is x for x in top):
-                        if ast.unparse(p.test) != "%s in values" % ast.unparse(t.slice):
-                            own = False
-                    if own:
-                        out.add(k)
-                    elif conditional is not None:
-                        conditional.add(k)
+                if isinstance(t, ast.Subscript) and isinstance(t.value, ast.Name) and t.value.id == dname:
+                    removals.append((s, kv(t.slice)))
+        elif isinstance(s, ast.Expr) and isinstance(s.value, ast.Call) and isinstance(s.value.func, ast.Attribute) and s.value.func.attr == "pop" \
+                and isinstance(s.value.func.value, ast.Name) and s.value.func.value.id == dname and s.value.args:
+            removals.append((s, kv(s.value.args[0])))
+    for s, k in removals:
+        if k is None:
+            continue
+        own = True
+        if any(s is x for x in top):
+            out.add(k)
+            continue
+        p = getattr(s, "_parent", None)
+        while p is not None and not any(p is x for x in top) and not isinstance(p, ast.FunctionDef):
+            if isinstance(p, (ast.If, ast.For, ast.While)):
+                if not (isinstance(p, ast.If) and own_guard(p.test, k)):
+                    own = False
+            if isinstance(p, ast.Try) and not all(isinstance(h.type, ast.Name) and h.type.id == "KeyError" for h in p.handlers):
+                own = False
+            p = getattr(p, "_parent", None)
+        if p is not None and isinstance(p, ast.If) and any(p is x for x in top):
+            if not own_guard(p.test, k):
+                own = False
+        if own:
+            out.add(k)
+        elif conditional is not None:
+            conditional.add(k)
     return out
 
 
